@@ -694,7 +694,7 @@ def gen_deep(rng, tier, n_classes):
 VIA_KINDS = ["plain", "partial", "allrequired", "extend", "omit", "pick", "omit-method", "pick-method", "subclass", "local"]
 # class names a user may choose (type() accepts any string): word-only names keep the field; names with a
 # character outside [\\w.] are the region of the open finding field-lost:non-word-name
-ODD_CLASS_NAMES = ["Foo_1", "F9", "_Priv", "\u00dcn\u00ef", "Foo.Bar", "x\u0301Cls", "My Class", "a-b", "Gen[int]"]
+ODD_CLASS_NAMES = ["Foo_1", "F9", "_Priv", "\u00dcn\u00ef", "Foo.Bar", "x\u0301Cls", "\u0928\u093e\u092e", "My Class", "a-b", "Gen[int]"]
 
 
 def gen_names(rng, tier):
@@ -1328,12 +1328,16 @@ def classify_no_path(text, raised, mode, ff, invalid_kinds, supplied_kinds, inne
     return "no-path:other"
 
 
+# the field group of errors.py since /repo <FIXID3> (written here from its documentation, not imported)
+FIELD_GROUP = r"(?:[\w.]|[^\x00-\x7f\s])"
+
+
 def classify_lost(text, path, declared=""):
-    if path is not None and re.fullmatch(r"[\w.]+", path) is None:
+    if path is not None and re.fullmatch(FIELD_GROUP + "+", path) is None:
         # a name with a character that is neither str.isalnum() nor `_` (e.g. a combining mark): the open
         # finding covers names the USER chose (class, explicit derived-class name, fields); a non-word character
         # that none of them contains was put there by typedpy (the name it gave a class it created)
-        if any(re.fullmatch(r"[\w.]", ch) is None and ch not in declared for ch in path):
+        if any(re.fullmatch(FIELD_GROUP, ch) is None and ch not in declared for ch in path):
             return "field-lost:non-word-name:generated-class-name"
         return "field-lost:non-word-name"
     if "\n" in text:
